@@ -412,6 +412,22 @@ def modpow_window_room(chk):
                               % sym.show(found[k][0]), key='%s %d %s' % (R, w, k))
 
 
+def p256_point_length_gate(chk):
+    """The specialised P-256 implementations write the result point back into the caller's G buffer with a fixed 65-byte encoder: api_mul
+    must therefore refuse any Glen other than 65 *before* it decodes or encodes anything - the decoder rejects a short point too, but
+    the encoder runs regardless and writes 65 bytes into a buffer that may hold fewer.  Partial evaluation under Glen != 65: the
+    function returns 0 and no call to the point encoder remains."""
+    from .. import oblig
+    from ..oblig import Ob, Var, ALL, RET, NOCALL
+    R = 'p256-point-length-gate'
+    obs = []
+    for impl, enc in (('m15', 'p256_encode'), ('m31', 'p256_encode'), ('m62', 'point_encode'), ('m64', 'point_encode')):
+        s = 'src/ec/ec_p256_%s.c' % impl
+        obs.append(Ob(s, 'api_mul', Var('Glen', 'param'), ('assume', 'ne', 65), ALL(RET(0), NOCALL(enc)), ('assume', 'eq', 65),
+                      'a point of the wrong length is refused before the fixed-size encoder writes into its buffer', rule=R, noinline=(enc,)))
+    oblig.run_obligations(chk, obs)
+
+
 def run(tier):
     chk = report.Check('C05', tier,
                        'Static bounds for the T0 virtual machines that parse all untrusted input (X.509, keys, PEM, both handshakes): '
@@ -448,6 +464,7 @@ def run(tier):
     no_resume_after_fail(chk)
     status_accessors(chk)
     curve_id_range(chk)
+    p256_point_length_gate(chk)
     self_indexed_wrap(chk)
     modpow_window_room(chk)
     from .. import bufcopy
